@@ -232,6 +232,11 @@ def scenarios(rng, quick):
             if op in ("replace", "delete", "same") and nprior == 0:
                 continue
             out.append({"prior": nprior, "op": op, "withprops": rng.random() < 0.6})
+    # collections that keep their properties in the repository's git configuration ([xandikos] section, as
+    # older releases wrote them): the property writes go through another code path (judged on the real crash
+    # states only — the micro-step model has no plan for the git-config back end)
+    for op in ("setprop:displayname", "setprop:description", "setprop:color", "setprop:comment"):
+        out.append({"prior": 1, "op": op, "withprops": False, "gitconfig": True})
     return out
 
 
@@ -243,6 +248,15 @@ def run_one(chk, kind, scen):
         s = crashdrv.make_store(kind, path)
         for i in range(scen["prior"]):
             s.import_one("m%d.ics" % i, "text/calendar", [vevent("prior-%d" % i, summary="prior %d" % i)])
+        if scen.get("gitconfig"):
+            if kind not in ("tree", "bare"):
+                return
+            from xandikos.store.git import RepoCollectionMetadata
+            md = RepoCollectionMetadata(s.repo)
+            md.set_displayname("Old name")
+            md.set_description("Old description")
+            md.set_color("#112233")
+            s = crashdrv.reopen(kind, path)
         if scen["withprops"]:
             for p, v in (("displayname", "Old name"), ("description", "Old description"), ("color", "#112233")):
                 try:
@@ -292,6 +306,12 @@ def run_one(chk, kind, scen):
         ordered = plain + cut
         audits = crashdrv.run_audit(kind, [st["dir"] for st in ordered])
         judge(chk, kind, scen, events, ordered, audits, target, prop)
+        if scen.get("gitconfig"):
+            chk.case((kind, json.dumps(scen, sort_keys=True)), nontrivial=len(events) > 0)
+            chk.count("events", len(events))
+            chk.count("git-config-scenarios")
+            chk.traces_validated += 1
+            return kind, scen, events, ordered, audits, target, prop
         correspond(chk, kind, scen, events, ordered, audits, pre_files, files_of(kind, s, path), target, pre_trees)
         chk.case((kind, json.dumps(scen, sort_keys=True)), nontrivial=len(events) > 0)
         chk.count("events", len(events))
